@@ -95,7 +95,7 @@ where
             }
         }
     }
-    if pd.len() > REF_MAX_CROSSINGS {
+    if pd.len() > case["ref_max"].as_u64().unwrap_or(REF_MAX_CROSSINGS as u64) as usize {
         rep.counters.insert("cross_run_only".into(), 1);
         return rep;
     }
@@ -126,7 +126,7 @@ pub fn draw_ht(rng: &mut Rng) -> (i64, i64) {
 impl Check for C01 {
     fn id(&self) -> &'static str { "C01" }
     fn rule(&self) -> String {
-        format!("one run = (diagram, ring, (h,t), reduced, crossing order) x (1..16 workers, pick-up policy, scheduler strategy, schedule seed, std+ahash hash seeds); diagrams: 41 table knots/links (3..11 crossings) and their mirrors, R1-kinked diagrams, unknot diagrams, split unions, the empty link, random braid closures on 2-4 strands; rings Z (i64, BigInt), Q, F2, F3; (h,t) in {{(0,0),(1,0),(2,0),(3,0),(0,1),(1,1),(-1,2)}}. Oracle: own cube-of-resolutions complex + own Smith reduction for diagrams with <= {REF_MAX_CROSSINGS} crossings, equality across all runs of the same input beyond. distinct = distinct event-log digests; non-trivial = the run made parallel calls and drew hash seeds")
+        format!("one run = (diagram, ring, (h,t), reduced, crossing order) x (1..16 workers, pick-up policy, scheduler strategy, schedule seed, std+ahash hash seeds); diagrams: 41 table knots/links (3..11 crossings) and their mirrors, R1-kinked diagrams, unknot diagrams, split unions, the empty link, random braid closures on 2-4 strands; rings Z (i64, BigInt), Q, F2, F3; (h,t) in {{(0,0),(1,0),(2,0),(3,0),(0,1),(1,1),(-1,2)}}. Oracle: own cube-of-resolutions complex + own Smith reduction for diagrams with <= {REF_MAX_CROSSINGS} crossings (quick; one more in thorough), equality across all runs of the same input beyond. distinct = distinct event-log digests; non-trivial = the run made parallel calls and drew hash seeds")
     }
     fn assumptions(&self) -> Vec<String> {
         vec![
@@ -150,7 +150,9 @@ impl Check for C01 {
         let (mut h, mut t) = draw_ht(rng);
         if ring == "Z" && pd.len() > 7 && (h.abs() > 1 || t.abs() > 1) { h = 1; t = 0; }
         let reduced = t == 0 && !pd.is_empty() && rng.chance(1, 3);
-        json!({ "name": name, "pd": pd_to_json(&pd), "ring": ring, "h": h, "t": t, "reduced": reduced })
+        // the cube-of-resolutions reference costs ~0.5 s per new 10-crossing input: thorough only
+        let ref_max = if tier == "quick" { REF_MAX_CROSSINGS } else { REF_MAX_CROSSINGS + 1 };
+        json!({ "name": name, "pd": pd_to_json(&pd), "ring": ring, "h": h, "t": t, "reduced": reduced, "ref_max": ref_max })
     }
     fn run_case(&self, case: &Value, ex: &mut Executor) -> RunReport {
         let ring = case["ring"].as_str().unwrap();
